@@ -95,13 +95,13 @@ def compare_reads(ctx, case, stream, disk, requests, subject, states=None, slots
             touched = ""
         if exc is not None:
             ok = False
-            ctx.violation(dict(case, requests=[[a, n]]),
+            ctx.violation((case if case.get("after_failed_request") else dict(case, requests=[[a, n]])),
                           {"subject": subject, "kind": "exception", "exc": type(exc).__name__, "via": via,
                            "touched": touched, "start_aligned": a % unit == 0, "past_end": a + n > size},
                           {"exception": repr(exc)[:300], "offset": a, "length": n})
         elif got != exp:
             ok = False
-            ctx.violation(dict(case, requests=[[a, n]]),
+            ctx.violation((case if case.get("after_failed_request") else dict(case, requests=[[a, n]])),
                           {"subject": subject, "kind": "mismatch", "via": via, "touched": touched,
                            "start_aligned": a % unit == 0, "past_end": a + n > size,
                            "short": len(got) < len(exp), "long": len(got) > len(exp)},
@@ -110,7 +110,7 @@ def compare_reads(ctx, case, stream, disk, requests, subject, states=None, slots
             pos = stream.tell()
             if pos != a + len(exp):
                 ok = False
-                ctx.violation(dict(case, requests=[[a, n]]),
+                ctx.violation((case if case.get("after_failed_request") else dict(case, requests=[[a, n]])),
                               {"subject": subject, "kind": "position", "via": via, "touched": touched},
                               {"tell": pos, "expected": a + len(exp), "offset": a, "length": n})
     return ok
@@ -140,13 +140,30 @@ def compare_sector_reads(ctx, case, reader, disk, requests, subject, sector_size
         else:
             touched = ""
         if exc is not None:
-            ctx.violation(dict(case, sector_requests=[[s, c]]),
+            ctx.violation((case if case.get("after_failed_request") else dict(case, sector_requests=[[s, c]])),
                           {"subject": subject, "kind": "exception", "exc": type(exc).__name__, "via": via,
                            "touched": touched, "start_aligned": a % unit == 0, "past_end": a + n > size},
                           {"exception": repr(exc)[:300], "sector": s, "count": c})
         elif got != exp:
-            ctx.violation(dict(case, sector_requests=[[s, c]]),
+            ctx.violation((case if case.get("after_failed_request") else dict(case, sector_requests=[[s, c]])),
                           {"subject": subject, "kind": "mismatch", "via": via, "touched": touched,
                            "start_aligned": a % unit == 0, "past_end": a + n > size,
                            "short": len(got) < len(exp), "long": len(got) > len(exp)},
                           dict(describe_mismatch(got, exp, a), sector=s, count=c))
+
+
+def recheck_after_failure(ctx, case, reader, stream, disk, sreqs, reqs, subject, sector_size=512):
+    """A sector request that cannot be served (it starts in the last sector and runs far past the end) is issued on the same
+    object; whether it raises or returns short, the requests answered before must be answered identically afterwards."""
+    last = max(0, (disk.size + sector_size - 1) // sector_size - 1)
+    for start, count in ((last, 70000), (max(0, last - 3), 20000)):
+        try:
+            reader(start, count)
+        except Exception:
+            pass
+    sub = [r for r in sreqs if r[1] > 0][:3] + [r for r in sreqs if r[1] > 0][-2:]
+    rsub = [r for r in reqs if r[1] > 0][:3]
+    # the replay case carries the lists used here, so that a replay goes through the same calls in the same order
+    case2 = dict(case, after_failed_request=True, sector_requests=[list(r) for r in sub], requests=[list(r) for r in rsub])
+    compare_sector_reads(ctx, case2, reader, disk, sub, subject + ".read_sectors.after-failed-request", sector_size)
+    compare_reads(ctx, case2, stream, disk, rsub, subject + ".read.after-failed-request")
